@@ -1,10 +1,11 @@
 /-
-Invariants of the extended system (`Model/Sched.lean`): the scheduler's bookkeeping (InvS), and the
-additional facts that hold when events are delivered in production order (FIFO; InvFifo).
+Invariants of the extended system (`Model/Sched.lean`): the scheduler's bookkeeping (InvS). The liveness bookkeeping
+of the base system (Tier L, any event order) is in `SchedLiveDefs.lean`.
 Definitions only; validated on random walks (Drive/SchedFuzz.lean) before being proved.
 -/
 import EkwVerif.Lemmas.CtrlInvAll
 import EkwVerif.Model.Sched
+import EkwVerif.Lemmas.SchedLiveDefs
 
 namespace EkwVerif.Ctrl
 
@@ -39,41 +40,5 @@ structure InvS (j : Job) (cl : Cluster) (cm : Comps) (x : SysX) : Prop where
   stage_ok : StageOk cl cm x
   stage_phase : x.sys.phase ≠ .assigning → (x.sch.stage = .off ∨ x.sch.stage = .done)
   no_schErr : x.sch.schErr = none
-
-/-- Per-producer FIFO delivery: of every task's pending output notices a received batch takes a prefix, in their order
-(what one worker's channel guarantees). Notices of DIFFERENT tasks, transfer notices and payloads may overtake each other
-freely. The global discipline "a batch is a prefix of all pending events" is the special case `fifoStep_of_prefix`. -/
-def fifoStep (x : SysX) : StepX → Prop
-  | .base (.recv evs) => ∀ pend, takeEvents x.sys.env.pending evs = some pend →
-      ∀ t, evs.filterMap (noticeOf t) ++ pend.filterMap (noticeOf t) = x.sys.env.pending.filterMap (noticeOf t)
-  | _ => True
-
-inductive ReachableFifo (f : Sem) (j : Job) (cl : Cluster) (cm : Comps) : SysX → Prop
-  | init : ReachableFifo f j cl cm (SysX.init j cl cm)
-  | step (x x' : SysX) (st : StepX) : ReachableFifo f j cl cm x → fifoStep x st →
-      stepX f j cl cm x st = some x' → ReachableFifo f j cl cm x'
-
-/-- outputs of `t` whose notice is still on its way, in order -/
-def pendingOuts (s : Sys) (t : Task) : List Nat :=
-  s.allEv.filterMap (fun ev => match ev with
-    | .pubW _ ds => if ds.task == t then some ds.out else none
-    | _ => none)
-
-/-- Tier F (FIFO only): the notices of one task's outputs are delivered in index order. -/
-structure InvFifo (j : Job) (cl : Cluster) (s : Sys) : Prop where
-  /-- the outstanding notices of a task that has run are a suffix m, m+1, …, nOut-1 of its outputs,
-      and exactly the earlier ones have been announced -/
-  suffix : ∀ t, s.env.ran t = true → ∃ m, m ≤ j.nOut t ∧ pendingOuts s t = (List.range (j.nOut t)).drop m ∧
-      (∀ k, k < m → s.ctl.announced ⟨t, k⟩ = true)
-  /-- hence a task whose completion was seen has all its outputs announced -/
-  done_announced : ∀ t, s.ctl.doneC t = true → ∀ k, k < j.nOut t → s.ctl.announced ⟨t, k⟩ = true
-  /-- a task that was dispatched is in flight or done -/
-  disp_flight_or_done : ∀ t, s.ctl.dispatched t = 1 → (∃ w, s.inFlight w t) ∨ s.ctl.doneC t = true
-  /-- an undispatched task is computable or still blocked on an unannounced input -/
-  undisp : ∀ t, t < j.tasks.length → s.ctl.dispatched t = 0 →
-      t ∈ s.ctl.computable ∨ (s.ctl.tracked t = true ∧ ∃ ds, ds ∈ s.ctl.tracker t)
-  tracker_sound : ∀ t ds, s.ctl.tracked t = true → ds ∈ s.ctl.tracker t → ds ∈ j.inputs t ∧ s.ctl.announced ds = false
-  /-- every worker is idle or has something in flight -/
-  workers_cover : ∀ w, w ∈ cl.ids → w ∈ s.ctl.idle ∨ ∃ t, s.inFlight w t
 
 end EkwVerif.Ctrl
